@@ -56,6 +56,7 @@ def shard(task):
     expected = getattr(mod, "ph_expected", None)
     n = len(terms)
     part = runner.Part()
+    repo.memoise_lark()        # every history starts with no published parser: without the memo each would pay ~80 ms per Environment()
     if hasattr(mod, "ph_prepare"):
         mod.ph_prepare()
     snap = procstate.snapshot()
@@ -107,6 +108,7 @@ def _fresh(modname, hists):
     mod = importlib.import_module(modname)
     repo.load()
     terms = mod.ph_terms()
+    repo.memoise_lark()
     if hasattr(mod, "ph_prepare"):
         mod.ph_prepare()
     snap = procstate.snapshot()
@@ -197,3 +199,29 @@ def cel_step(rk, text, bindings=None):
     from . import celrun
     o = celrun.Prog(rk, text).eval(bindings or {})
     return tuple(o[:3]) if o and o[0] == "V" else tuple(o)
+
+
+def install(g, texts, expected=None, with_class=False, runners=("I", "C")):
+    """Define the ph_* functions of a property module (``g`` = its globals()) for an alphabet of CEL texts evaluated under
+    both runners.  ``expected``: text -> outcome (or absent = differential against the term alone only)."""
+    from . import outcome as _oc
+    expected = expected or {}
+
+    def ph_terms():
+        return [[rk, t] for rk in runners for t in texts]
+
+    def ph_step(term):
+        from . import celrun
+        o = celrun.Prog(term[0], term[1]).eval({})
+        return tuple(o) if (with_class or not o or o[0] != "V") else tuple(o[:3])
+
+    def ph_expected(term):
+        e = expected.get(term[1])
+        return None if e is None else tuple(e)
+
+    def ph_label(term):
+        return f"[{term[0]}] {term[1]}"
+
+    def ph_outcome_label(o):
+        return _oc.label(o) if o and o[0] in "VEPX" else str(o)[:30]
+    g.update(ph_terms=ph_terms, ph_step=ph_step, ph_expected=ph_expected, ph_label=ph_label, ph_outcome_label=ph_outcome_label)
